@@ -61,6 +61,21 @@ class GeomCase:
         else:
             k, s_, p, d = (kh, kw), (sh, sw), (ph, pw), (dh, dw)
 
+        # history: the routines are functions of their arguments only -- earlier calls with OTHER geometries (same kernel/stride/dilation/padding arguments on
+        # the same input with its two spatial axes swapped, and on a larger input) must not influence this one (memoised index tables, reused buffers)
+        try:
+            with shim.native():
+                for (H2, W2) in ((W, H), (H + sh, W), (H, W + sw)):
+                    if out_len(H2, kh, sh, ph, dh) < 1 or out_len(W2, kw, sw, pw, dw) < 1:
+                        continue
+                    x2 = np.arange(N * C * H2 * W2, dtype=np.float64).reshape(N, C, H2, W2)
+                    for fn in (ct.im2col, ct.im2col_v2, ct.im2col_fast):
+                        cols = fn(x2, k, d, s_, p, 0.0, as_unfold=True)
+                    for fn in (ct.col2im, ct.col2im_v2, ct.col2im_fast):
+                        fn(np.asarray(cols, dtype=np.float64), (N, C, H2, W2), k, d, s_, p)
+        except Exception as e:
+            res["notes"].append("warm-up calls on neighbouring geometries raised %s: %s (their own cases decide that)" % (type(e).__name__, str(e)[:100]))
+
         def compare(name, got, exp, what):
             got = np.asarray(got, dtype=object)
             exp = np.asarray(exp, dtype=object)
